@@ -21,7 +21,8 @@ func init() {
 		body += "Definition pipe_loop : list string := " + coqStrList(skeletonWithCalls(funcDecl(f, "MessageStore", "processMessageLoop"),
 			[]string{"WaitForItem", "getOrCreateDeviceCache", "processMessage", "Add", "processDeviceMessagesInQueue", "Emit"})) + ".\n"
 		// writers of the flag
-		var writers []string
+		var writers, users []string
+		seenUser := map[string]bool{}
 		returns := map[string]int{}
 		if f != nil {
 			for _, d := range f.f.Decls {
@@ -31,6 +32,10 @@ func init() {
 				}
 				writes := false
 				ast.Inspect(fd.Body, func(n ast.Node) bool {
+					if se, ok := n.(*ast.SelectorExpr); ok && se.Sel.Name == "hasKnownChainKey" && !seenUser[fd.Name.Name] {
+						seenUser[fd.Name.Name] = true
+						users = append(users, fd.Name.Name)
+					}
 					switch x := n.(type) {
 					case *ast.AssignStmt:
 						for _, l := range x.Lhs {
@@ -56,6 +61,7 @@ func init() {
 		}
 		body += "\n(* functions that write the hasKnownChainKey flag of a device cache; return statements of the two functions that hold muDeviceCaches *)\n"
 		body += "Definition chain_key_flag_writers : list string := " + coqStrList(writers) + ".\n"
+		body += "Definition chain_key_flag_users : list string := " + coqStrList(users) + ".\n"
 		body += fmt.Sprintf("Definition pipe_returns : nat * nat := (%d, %d)%%nat.\n", returns["getOrCreateDeviceCache"], returns["ProcessMessageQueueForDevicePK"])
 		write("Pipeline.v", body)
 	})
